@@ -83,6 +83,8 @@ class SchedStream(Stream):
             return "sched:C20:double-launch-after-crash"
         if "custom output(s) lost by the crash" in failure:
             return "sched:C20:uncommitted-custom-output-lost"
+        if "processed in the same main-loop iteration still found its outputs" in failure:
+            return "sched:C30:set-after-remove-in-one-iteration-sees-erased-history"
         if "the restart re-applied the hold point to the reloaded pool and holds it again" in failure:
             return "sched:C19:released-beyond-hold-point-held-again-after-restart"
         if "was spawned in the main-loop iteration in which the scheduler died" in failure:
